@@ -400,6 +400,22 @@ def run(ctx):
         else:
             keyexpr = {}
         ok1 = (len(lk) == 1 or len(fiu) == 1) and L["key_call"] in depends(upd, keyexpr)[1] and upd.params[0]["decl"] in depends(upd, keyexpr)[0]
+        if not ok1 and (len(lk) == 1 or len(fiu) == 1) and isinstance(keyexpr, dict) and len(upd.params) > 1:
+            # the key is handed in: a parameter of the updater that every call site fills from the key getter of the packet it passes along
+            kx = strip_all_casts(facts.expand(upd, keyexpr))
+            pd = [q["decl"] for q in upd.params]
+            if kx.get("k") == "ref" and kx.get("dk") == "param" and kx.get("decl") in pd[1:]:
+                i = pd.index(kx["decl"])
+                sites = [(h, facts.effective_call(c)) for h in fb.all_functions() if h.body is not None for c in h.calls() if fb.resolve_call(c) is upd]
+
+                def from_same_packet(h, c):
+                    a = c.get("args", [])
+                    if len(a) <= i:
+                        return False
+                    d0, _ = depends(h, a[0])
+                    di, ci = depends(h, a[i])
+                    return L["key_call"] in ci and bool(d0) and set(d0) <= set(di)
+                ok1 = bool(sites) and all(from_same_packet(h, c) for h, c in sites)
         res.check(ok1, "C16-R1", "%s:update-key" % short, (lk or fiu or [upd])[0].get("loc") if (lk or fiu) else upd.loc,
                   "update looks up %s of the packet" % L["key_call"].split("::")[-1],
                   "update does not look the element up by %s of the packet being applied" % L["key_call"])
